@@ -1,2 +1,69 @@
-From SV Require Import Engine.
-Theorem C11_placeholder : True. Proof. exact I. Qed.
+(* C11 - Beat to time conversion matches the exact timeline for all event interleavings.
+   Statements only.  PARTIAL: the theorems below carry the offset law, the ordering of events, the
+   monotonicity of the state machine's times and the warp coalescing invariants, for every timing data
+   in the property's domain [dom].  The closed form (sum over elapsed beats outside the warp union plus
+   pauses passed) and the redundant-BPM law are established by the correspondence check against an
+   independent exact-rational evaluation (DESIGN.md, C11), not by a theorem.  The binary64 gap is measured. *)
+From Coq Require Import List ZArith QArith Bool Sorting.Sorted.
+From SV Require Import Sx Beat Engine Generated.Tables Proofs.EngineFacts.
+Import ListNotations.
+Open Scope Q_scope.
+
+(* changing the offset by d changes every state time and every time_at answer by -d, and nothing else *)
+Theorem C11_offset_shift_states : forall td d sts, states td = EOk sts ->
+  exists sts', states (with_offset td (td_offset td + d)) = EOk sts' /\ Forall2 (shifted d) sts sts'.
+Proof. exact offset_shift. Qed.
+Print Assumptions C11_offset_shift_states.
+
+Theorem C11_offset_shift : forall dq beat tag l l' d d', Forall2 (shifted dq) l l' -> shifted dq d d' ->
+  time_at l' d' beat tag == time_at l d beat tag - dq.
+Proof. exact time_at_shifted. Qed.
+Print Assumptions C11_offset_shift.
+
+(* the merged event list is ordered by (beat, tag) for every timing data of the domain:
+   whatever the coincidences of different kinds of event on one beat *)
+Theorem C11_events_sorted : forall td, dom td -> StronglySorted ev_ge (events td).
+Proof. exact events_sorted. Qed.
+Print Assumptions C11_events_sorted.
+
+(* time never decreases along the states *)
+Theorem C11_monotone_states : forall td sts, dom td -> states td = EOk sts ->
+  StronglySorted (fun a b => s_time a <= s_time b) sts.
+Proof. exact states_monotone. Qed.
+Print Assumptions C11_monotone_states.
+
+(* overlapping or touching warps act as separated segments: starts and ends strictly increase,
+   each start at most its end, consecutive segments separated *)
+Theorem C11_warp_segments : forall ws, raw_ok ws ->
+  exists ss es, coalesce ws [] [] = (rev ss, rev es) /\ segs_ok ss es.
+Proof. intros ws H. apply coalesce_ok; [exact H|constructor|intros ? []]. Qed.
+Print Assumptions C11_warp_segments.
+
+(* one step of the timeline, as the documentation states it: sixty seconds over the BPM in force for
+   every beat outside a warp, plus the pause when a stop/delay ends *)
+Theorem C11_step_law : forall s e,
+  s_time (advance s e) ==
+  s_time s + (if s_warp s then 0 else (e_beat e - s_beat s) * 60 / s_bpm s)
+           + (if is_pause_tag (s_tag s) && is_end_tag (e_tag e) then s_val s else 0).
+Proof.
+  intros s e. unfold advance, time_until. cbn [s_time]. rewrite !Qred_correct.
+  destruct (is_pause_tag (s_tag s) && is_end_tag (e_tag e)); ring.
+Qed.
+Print Assumptions C11_step_law.
+
+Theorem C11_event_tag_order :
+  Tables.event_tags = [([87;65;82;80]%N, 0%Z); ([87;65;82;80;95;69;78;68]%N, 1%Z); ([66;80;77]%N, 2%Z); ([68;69;76;65;89]%N, 3%Z);
+                       ([68;69;76;65;89;95;69;78;68]%N, 4%Z); ([83;84;79;80]%N, 5%Z); ([83;84;79;80;95;69;78;68]%N, 6%Z)].
+Proof. reflexivity. Qed.
+
+(* non-vacuity and a full evaluation: stop on a delay at a warp start with a BPM change inside the warp *)
+Definition ex_td : tdata :=
+  {| td_bpms := [(0, 120); (9 # 2, 240)]; td_stops := [(4, 1 # 2)]; td_delays := [(4, 1 # 4)]; td_warps := [(4, 2)]; td_offset := 0 |}.
+Example C11_example :
+  match states ex_td with
+  | EOk sts =>
+      let d := hd {| s_beat := 0; s_val := 0; s_tag := 0; s_time := 0; s_bpm := 1; s_warp := false |} sts in
+      Qeq_bool (time_at sts d 4 tSTOP) (9 # 4) && Qeq_bool (time_at sts d 4 tSTOP_END) (11 # 4) &&
+      Qeq_bool (time_at sts d 6 tSTOP) (11 # 4) && Qeq_bool (time_at sts d 7 tSTOP) 3 && Qeq_bool (bpm_at sts d 5) 240
+  | _ => false end = true.
+Proof. vm_compute. reflexivity. Qed.
